@@ -2,12 +2,12 @@ SPECIFICATION Spec
 CONSTANTS
   Chunks = 32
 INVARIANTS
+  Tally
+  Wider
   Lockstep
   NoPanic
   RelationA
   NoSpecOnly
   NoImplOnly
-  Tally
-  Wider
 POSTCONDITION Consumed
 CHECK_DEADLOCK FALSE
